@@ -204,7 +204,7 @@ def side_text(v, labels, rng):
 
 def gen_system(rng, kind=None, max_species=3, max_reactions=3, max_cells=8, max_order=4, parent=DEFAULT_SYS,
                units_everywhere=True, moderate=False, chem_p=0.0, allow_parallel=False, p_explicit=0.3,
-               p_units=0.35):
+               p_units=0.35, non_growing=False):
     """returns (description dict for rdsystem_from_dict, phys, info)"""
     F = Field(rng, p_explicit, moderate)
     pu = p_units if units_everywhere else 0.0
@@ -261,6 +261,8 @@ def gen_system(rng, kind=None, max_species=3, max_reactions=3, max_cells=8, max_
     reactions, phys_reacs = [], []
     for r in range(nreac):
         sub, prod = gen_reaction_sides(rng, ns, max_order)
+        if non_growing and sum(prod) > sum(sub):
+            sub, prod = prod, sub          # irreversible, never more products than substrates: amounts cannot blow up
         rd = {"eq": "%s -> %s" % (side_text(sub, labels, rng), side_text(prod, labels, rng))}
         u_decl, u_r = declare_units(rng, u_net, pu * 0.6, moderate)
         if u_decl is not None:
@@ -273,8 +275,12 @@ def gen_system(rng, kind=None, max_species=3, max_reactions=3, max_cells=8, max_
             krn = [krn[0]] * len(envs)
         e, kf_si = F.per_env(kfn, k_dim(sum(sub)), u_r, envs)
         rd["k+"] = e
+        if non_growing:
+            krn = [0] * len(envs)
         e, kr_si = F.per_env(krn, k_dim(sum(prod)), u_r, envs)
-        if not (e == 0 and rng.random() < 0.5):
+        if non_growing:
+            kr_si = [Fraction(0)] * len(envs)
+        elif not (e == 0 and rng.random() < 0.5):
             rd["k-"] = e
         else:
             kr_si = [Fraction(0)] * len(envs)
